@@ -6,13 +6,18 @@ Ops:  s <escaped chunk>  => ok
                             [ out=empty | lex2=<st> parse2=<st> fmt2=<st> idem=<0|1> ncomments=<n> comments=<c> T2 <tok>… A2 <dump>… [OUT1 … OUT2 …] ]
       <tok> = KIND|nl|cm|'text (real scanner, comments left out);  <dump> = canonical dump of the real parser's AST.
 Correspondence (MISMATCH): the model parser accepts exactly what the real parser accepts and builds the same AST
-(source and formatted text); the model formatter writes the same token texts as the real formatter.
+(source and formatted text); the model formatter writes the same token texts as the real formatter; every AST the
+model parser builds satisfies the decidable well-formedness predicate that the round-trip theorems assume.
+Sections: `kind` valid | mut | sweep (one comment form at one position), `class` main or a known defect class of the
+unchanged formatter (route-comment, empty-body-comment, inner-comment, comment-trailing-blank, star-slash,
+ml-comment, ctl-literal, empty-source), `sure=1` = generated without keyword-like identifiers (valid by construction).
 Monitor (MONITOR, the property on the implementation's own observations): no panic; a valid source is formatted;
 an invalid one is rejected with an error; the formatted text scans, parses, has the same description, and
 formatting it again changes nothing.
 -/
 import GoZero.Base.Trace
 import GoZero.C20.Spec
+import GoZero.C20.WfDec
 namespace GoZero.C20
 
 open GoZero
@@ -161,6 +166,9 @@ def runFmt (r : Report) (sec : Nat) (line : Nat) (cfg : List String) (obs : List
     return r
   | some m1 =>
   r := r.addCover ("valid-" ++ kind)
+  -- the hypothesis of the round-trip theorems (Props.lean: parse_print, format_correct) holds for this program
+  if wfApiB m1 then r := r.addCover "ast-well-formed"
+  else r := r.mismatch sec line "an AST in WF (hypothesis of parse_print / format_correct)" ("the model parser built: " ++ joinSp (dump m1))
   r := coverApi r m1
   r := coverSlots r cfg
   if prs != "ok" then
